@@ -67,6 +67,9 @@ def _gen_q(rng, field, opts, counter):
     if kind in ("named", "cached_named"):
         counter[0] += 1
         q["name"] = "q%d_%s" % (counter[0], field)
+        if rng.chance(opts.get("awkward_names", 0.05)):
+            # names named() accepts and the format can carry: the empty string, a name with spaces / a colon / unicode
+            q["name"] = rng.pick(["", " ", "a:b", "x y", "name", "\u00e9nergie"])
     elif kind == "def":
         counter[0] += 1
         q["name"] = "fn%d_%s" % (counter[0], field)
